@@ -1,0 +1,9 @@
+//go:build !verif
+
+package sync
+
+import "bytes"
+
+func verifPoolGet() {}
+
+func verifPoolPut(*bytes.Buffer) {}
